@@ -1,6 +1,7 @@
 mod hist;
 mod instr;
 mod ops;
+mod oracle;
 mod props;
 mod refmath;
 mod run;
@@ -16,8 +17,12 @@ fn with_prop(id: &str, f: &mut dyn FnMut(&dyn Runner) -> i32) -> i32 {
         "C01" => f(&props::c01::C01),
         "C02" => f(&props::c02::prop()),
         "C03" => f(&props::c03::prop()),
+        "C04" => f(&props::c04::prop()),
+        "C05" => f(&props::c05::prop()),
         "C08" => f(&props::c08::prop()),
         "C10" => f(&props::c10::prop()),
+        "C11" => f(&props::c11::prop()),
+        "C12" => f(&props::c12::prop()),
         "C17" => f(&props::c17::C17),
         "C19" => f(&props::c19::C19),
         _ => {
